@@ -2,7 +2,8 @@
    An event is the particle the callback is handed, as it is in memory at the moment of the call.
    Order in the code: N==1: N=0, callback;  keep_sorted: N--, callback, N_active, then the shift;
    unsorted with a tree: y=NaN first, then callback;  unsorted without: N--, callback, then the overwrite.
-   reb_simulation_remove_all_particles calls no callback at all. *)
+   reb_simulation_remove_all_particles calls it for every particle, in index order, before the array is freed
+   (since 674afcc). *)
 From Coq Require Import List ZArith NArith Bool Arith Lia ZifyBool.
 From RV Require Import C14.Model C14.Lists C14.ProofsA C14.ProofsB C14.ProofsC.
 Import ListNotations.
@@ -23,7 +24,8 @@ Definition step_cb (s : state) (o : op) : list particle :=
   | RemoveIdx z k => remove_idx_cb s z k
   | RemoveHash h k => let '(s1, r) := by_hash s h in
                       match r with Some i => remove_idx_cb s1 (Z.of_nat i) k | None => [] end
-  | _ => []      (* RemoveAll included: no callback *)
+  | RemoveAll => firstn (sN s) (mem s)       (* for (i<N) free_particle_ap(&particles[i]); nothing modified in between *)
+  | _ => []
   end.
 
 (* what the list specification expects: the removed particle, exactly once, as it was before its slot is
@@ -67,12 +69,9 @@ Proof.
     + inversion H; subst. reflexivity.
 Qed.
 
-(* remove-all: "once per removed particle" is FALSE -- no callback is called *)
-Theorem callback_remove_all_refuted : exists s, wf s /\ aps (abs s) <> [] /\ step_cb s RemoveAll = [].
-Proof.
-  exists (fst (run (init false) [Add (mkP 1 1 false)])). split; [split; vm_compute; lia|].
-  split; [vm_compute; discriminate|reflexivity].
-Qed.
+(* remove-all: once per removed particle, in index order, each as it is in the list *)
+Theorem callback_remove_all : forall s, step_cb s RemoveAll = aps (abs s).
+Proof. reflexivity. Qed.
 
 (* ---- glue for the correspondence: per-operation callback events (id, y-is-NaN) *)
 Fixpoint cb_trace (s : state) (ops : list op) : list (list (N * bool)) :=
